@@ -392,3 +392,7 @@ def expand(item, seed):
         return
     for sc in _expand0(item, seed):
         yield sc
+
+
+# round 7 summary for the evidence file
+RULE = RULE + "  Round 7: every ping payload length 0..125 (arbitrary, mostly non-UTF-8 bytes) x position also with the library's enableTrace switched on; 15 % of the seeded scenarios likewise."
